@@ -201,6 +201,52 @@ struct Agg {
     fp_chain: u64,
 }
 
+impl Agg {
+    fn empty() -> Agg {
+        Agg {
+            evaluations: 0,
+            fps_nontrivial: BTreeSet::new(),
+            fps_all: BTreeSet::new(),
+            stats: Stats::default(),
+            counters: BTreeMap::new(),
+            cells: BTreeSet::new(),
+            out_of_scope: BTreeMap::new(),
+            known_hits: BTreeMap::new(),
+            samples: Vec::new(),
+            failures: Vec::new(),
+            fp_chain: 0,
+        }
+    }
+}
+
+/// Wall-clock budget of one run before the watchdog calls it a hang (ring T has
+/// its own 30 s step watchdog; the longest legitimate runs are the start-up
+/// probes of C20 with their 30 s answer deadlines).
+pub fn hang_secs() -> u64 {
+    std::env::var("VERIF_HANG_SECS").ok().and_then(|s| s.parse().ok()).unwrap_or(120)
+}
+
+/// `generate` may itself execute the code under test (dry runs): bounded.
+fn generate_with_timeout(chk: &dyn Check, rs: u64, i: u64, tier: Tier) -> Case {
+    let (tx, rx) = std::sync::mpsc::channel();
+    std::thread::scope(|s| {
+        let h = s.spawn(move || {
+            let _ = tx.send(chk.generate(rs, i, tier));
+        });
+        match rx.recv_timeout(std::time::Duration::from_secs(30)) {
+            Ok(c) => {
+                let _ = h.join();
+                c
+            }
+            Err(_) => {
+                // cannot be joined: report without the case and leave at once
+                println!("violation detail: [hang] run {} (seed {}) did not return and its case cannot be regenerated without hanging again", i, rs);
+                Case { kind: "unavailable".into(), data: json!({"run_index": i, "run_seed": rs}) }
+            }
+        }
+    })
+}
+
 pub fn run_check(chk: &dyn Check, cfg: &RunConfig) -> i32 {
     let t0 = Instant::now();
     let prop = chk.id();
@@ -228,7 +274,20 @@ pub fn run_check(chk: &dyn Check, cfg: &RunConfig) -> i32 {
         }
     }
 
+    let ctx = TailCtx {
+        chk,
+        cfg,
+        open: open.clone(),
+        known_reproduced: known_reproduced.clone(),
+        known_gone: known_gone.clone(),
+        t0,
+    };
     let total = cfg.runs_override.unwrap_or_else(|| chk.runs(cfg.tier));
+    let jobs = cfg.jobs.max(1);
+    // watchdog: (run index + 1, start in ms since t0) per worker
+    let slots: Vec<(AtomicU64, AtomicU64)> = (0..jobs).map(|_| (AtomicU64::new(0), AtomicU64::new(0))).collect();
+    let workers_done = AtomicU64::new(0);
+    let hang_ms = hang_secs() * 1000;
     let next = AtomicU64::new(0);
     let stop = AtomicBool::new(false);
     let first_fail = AtomicU64::new(u64::MAX);
@@ -246,11 +305,44 @@ pub fn run_check(chk: &dyn Check, cfg: &RunConfig) -> i32 {
         fp_chain: 0,
     });
 
+    let (agg_r, stop_r, next_r, first_fail_r, open_sigs_r, slots_r, workers_done_r, ctx_r) = (&agg, &stop, &next, &first_fail, &open_sigs, &slots, &workers_done, &ctx);
     std::thread::scope(|s| {
-        for _w in 0..cfg.jobs.max(1) {
-            s.spawn(|| {
+        let (agg, stop, next, first_fail, open_sigs, slots, workers_done, ctx) = (agg_r, stop_r, next_r, first_fail_r, open_sigs_r, slots_r, workers_done_r, ctx_r);
+        // a run that never returns (the code under test blocks or spins forever) must not
+        // hang the check: the watchdog reports it and ends the process
+        s.spawn(move || loop {
+            if workers_done.load(Ordering::SeqCst) >= jobs as u64 {
+                break;
+            }
+            std::thread::sleep(std::time::Duration::from_millis(200));
+            let now_ms = t0.elapsed().as_millis() as u64;
+            for slot in slots.iter() {
+                let i1 = slot.0.load(Ordering::SeqCst);
+                if i1 == 0 || now_ms.saturating_sub(slot.1.load(Ordering::SeqCst)) <= hang_ms || slot.0.load(Ordering::SeqCst) != i1 {
+                    continue;
+                }
+                let i = i1 - 1;
+                let owner = if prop == "C10" { "C10" } else { "C16" };
+                let v = Violation::new(owner, "hang", format!("run {} did not return within {} s of wall-clock time: a command inside the code under test blocks or spins forever", i, hang_ms / 1000));
+                let case = generate_with_timeout(chk, run_seed(cfg.seed, prop, i), i, cfg.tier);
+                let a = std::mem::replace(&mut *agg.lock().unwrap(), Agg::empty());
+                let code = finish(ctx, a, Some((i, case, v)));
+                std::process::exit(code);
+            }
+        });
+        for w in 0..jobs {
+            let slot = &slots[w];
+            s.spawn(move || {
                 crate::stack::install_thread();
+                struct Done<'a>(&'a AtomicU64);
+                impl Drop for Done<'_> {
+                    fn drop(&mut self) {
+                        self.0.fetch_add(1, Ordering::SeqCst);
+                    }
+                }
+                let _done = Done(workers_done);
                 loop {
+                    slot.0.store(0, Ordering::SeqCst);
                     if stop.load(Ordering::SeqCst) {
                         // finish only indices below the first failure
                     }
@@ -259,6 +351,8 @@ pub fn run_check(chk: &dyn Check, cfg: &RunConfig) -> i32 {
                         break;
                     }
                     let rs = run_seed(cfg.seed, prop, i);
+                    slot.1.store(t0.elapsed().as_millis() as u64, Ordering::SeqCst);
+                    slot.0.store(i + 1, Ordering::SeqCst);
                     let (out, case) = match chk.run_fast(rs, i, cfg.tier) {
                         Some(o) => (o, None),
                         None => {
@@ -266,6 +360,7 @@ pub fn run_check(chk: &dyn Check, cfg: &RunConfig) -> i32 {
                             (chk.execute(&case), Some(case))
                         }
                     };
+                    slot.0.store(0, Ordering::SeqCst);
                     let mut new_viol = Vec::new();
                     let mut known_here = Vec::new();
                     for v in &out.violations {
@@ -311,12 +406,62 @@ pub fn run_check(chk: &dyn Check, cfg: &RunConfig) -> i32 {
         }
     });
 
-    let mut a = agg.into_inner().unwrap();
+    let a = agg.into_inner().unwrap();
+    finish(&ctx, a, None)
+}
+
+struct TailCtx<'a> {
+    chk: &'a dyn Check,
+    cfg: &'a RunConfig,
+    open: Vec<&'a KnownFinding>,
+    known_reproduced: Vec<String>,
+    known_gone: Vec<String>,
+    t0: Instant,
+}
+
+/// Everything after the exploration: known findings seen on the way, the first
+/// failure (minimised, written as a replay file), the evidence file, the exit
+/// code. `hang`: a run that did not return (reported by the watchdog, which then
+/// ends the process with the code returned here).
+fn finish(ctx: &TailCtx, mut a: Agg, hang: Option<(u64, Case, Violation)>) -> i32 {
+    let chk = ctx.chk;
+    let cfg = ctx.cfg;
+    let prop = chk.id();
+    let t0 = ctx.t0;
+    let open = &ctx.open;
+    let mut known_reproduced = ctx.known_reproduced.clone();
+    let known_gone = ctx.known_gone.clone();
     a.failures.sort_by_key(|f| f.0);
     let wall_explore = t0.elapsed().as_secs_f64();
+    let mut skip_minimise = false;
+    if let Some((idx, case, v)) = hang {
+        if v.prop == prop {
+            // nothing below that index failed in a way that returned: the hang is the report
+            if a.failures.first().map(|f| f.0 > idx).unwrap_or(true) {
+                a.failures.insert(0, (idx, case, vec![v]));
+                skip_minimise = true;
+            }
+        } else {
+            let _ = std::fs::create_dir_all(format!("{}/replays", cfg.verif_dir));
+            let path = format!("{}/replays/{}-{}-seed{}-run{}-hang.json", cfg.verif_dir, prop, cfg.tier.name(), cfg.seed, idx);
+            let doc = json!({
+                "property": prop,
+                "tier": cfg.tier.name(),
+                "seed": cfg.seed,
+                "run_index": idx,
+                "run_seed": run_seed(cfg.seed, prop, idx),
+                "signature": v.signature(),
+                "violation": {"prop": v.prop, "clause": v.clause, "detail": v.detail},
+                "case": case.to_json(),
+            });
+            let _ = std::fs::write(&path, serde_json::to_string_pretty(&doc).unwrap());
+            println!("note: run {} did not return ({}); that is {}'s business, not {}'s - counted as an out-of-scope observation, exploration stops here (case: {})", idx, v.detail, v.prop, prop, path);
+            *a.out_of_scope.entry(v.signature()).or_insert(0) += 1;
+        }
+    }
 
     // known findings that showed up during exploration but had no embedded case
-    for k in &open {
+    for k in open.iter() {
         if k.case.is_none() && a.known_hits.contains_key(&k.signature) {
             println!("KNOWN-FINDING: property={} {} {}", prop, k.signature, k.what);
             known_reproduced.push(k.signature.clone());
@@ -330,7 +475,7 @@ pub fn run_check(chk: &dyn Check, cfg: &RunConfig) -> i32 {
         let v0 = viols[0].clone();
         let sig = chk.signature(&v0);
         let tmin = Instant::now();
-        let (min_case, min_viol, tried) = crate::minimise::minimise(chk, &case, &sig, cfg.minimise_budget_s);
+        let (min_case, min_viol, tried) = if skip_minimise { (case.clone(), v0.clone(), 0) } else { crate::minimise::minimise(chk, &case, &sig, cfg.minimise_budget_s) };
         let _ = std::fs::create_dir_all(format!("{}/replays", cfg.verif_dir));
         let path = format!("{}/replays/{}-{}-seed{}-run{}.json", cfg.verif_dir, prop, cfg.tier.name(), cfg.seed, idx);
         let rs = run_seed(cfg.seed, prop, idx);
@@ -440,7 +585,30 @@ pub fn replay(chk: &dyn Check, doc: &Value) -> i32 {
         }
     };
     let want = doc.get("signature").and_then(|x| x.as_str()).unwrap_or("");
-    let out = chk.execute(&case);
+    if case.kind == "unavailable" {
+        eprintln!("harness error: the replay file records a run whose case could not be regenerated");
+        return 2;
+    }
+    // a recorded hang replays as a hang: bounded by the same watchdog
+    let (tx, rx) = std::sync::mpsc::channel();
+    let out = std::thread::scope(|s| {
+        let case_r = &case;
+        s.spawn(move || {
+            crate::stack::install_thread();
+            let _ = tx.send(chk.execute(case_r));
+        });
+        match rx.recv_timeout(std::time::Duration::from_secs(hang_secs())) {
+            Ok(o) => o,
+            Err(_) => {
+                let owner = if chk.id() == "C10" { "C10" } else { "C16" };
+                println!("replayed violation [{}:hang] the case did not return within {} s of wall-clock time", owner, hang_secs());
+                if want.ends_with(":hang") {
+                    println!("VIOLATION property={} replay=(replayed)", chk.id());
+                }
+                std::process::exit(1);
+            }
+        }
+    });
     for l in &out.log {
         println!("  {}", l);
     }
